@@ -37,8 +37,10 @@ CLAIMS = {
             "satisfying TBnd (stored scores within the mate bounds: true of new/cleared/resized tables, kept by every search), root answers with a move "
             "legal in the root whenever one exists, for every root satisfying the executable invariant invr_b (value bounds by induction over fuel with "
             "the position invariant kept by every generated move and null move; that generated moves keep the king safe is C01's gen_legal). "
-            "The tie to the binary: the real search with zero/near-zero budgets, clocks 95..105, repetition roots and pre-filled tables.",
-            "DESIGN.md section 6 C03", "modulo fuel"),
+            "No 'modulo fuel' either: the search of the model terminates (explicit recursion bound 61442 for the root: a potential of men and pawn advances, the depth and the half-move clock decrease "
+            "lexicographically) and its result does not depend on the fuel beyond that bound, so for every limit, history and admissible table with at least one slot the search DOES return, and "
+            "its answer is legal (C03_search_always_answers_with_a_legal_move). The tie to the binary: the real search with zero/near-zero budgets, clocks 95..105, repetition roots and pre-filled tables.",
+            "DESIGN.md section 6 C03 and section 9", ""),
     "C06": ("proof", "Coq: the printed FEN parses back to the very same position record for every valid position incl. every subset of castling rights in standard and Chess960 geometry (board loop invariant, castling-letter lemmas, field splitting, flip for Black to move); differential round trips and an independent canonical X-FEN printer",
             "Proof on the model for the first sentence of the property: for every valid position (record RTC: well-formed boards, validate = None, correct key, clocks within i32, held "
             "rights with the rook file on the proper wing, files of rights not held at their defaults), either side to move, both arithmetic modes, get_fen p = Some s and set_fen s = Some p -- "
@@ -89,7 +91,7 @@ CLAIMS = {
             "PARTIAL proof. Proved for every string and both modes: an accepted string yields a position that passed validate with the key "
             "recomputed from scratch, what validate guarantees (spelled out), and consistent bitboards (us|them = union of the piece boards, by the "
             "XOR-parity invariant of the board loop). Completeness in the form the model can carry: the FEN the engine prints for a valid position (any rights, Chess960 files) is accepted and yields that "
-            "position (C07_printed_fen_is_accepted, from C06). Acceptance of every canonical X-FEN of D written by an independent printer and 'a well-formed string denotes what it spells' rest on the "
+            "position (C07_printed_fen_is_accepted, from C06), in particular of every position of D and of every position reached from D by generated moves while the clocks fit an i32 (C07_fen_of_every_reached_position_is_accepted). Acceptance of every canonical X-FEN of D written by an independent printer and 'a well-formed string denotes what it spells' rest on the "
             "correspondence run (both builds).", "DESIGN.md section 6 C07", ""),
     "C10": ("proof", "Coq proof: vm_compute sweep over regenerated magics lifted to all occupancies; exhaustive differential vs geometry",
             "Full proof about the model: magic lookup (table generated as in build.rs, indexed as in magic.rs, constants regenerated "
@@ -106,10 +108,11 @@ CLAIMS = {
             "Proof on the model for: iterations reported consecutively from 1, nothing deeper than a depth limit, no iteration >= 2 reported at or "
             "beyond a node limit, answer = first move of the last pv; every reported score within [-MATE, MATE] (strictly inside +-INF) and the table left "
             "behind satisfies TBnd again, for every limit, history and admissible table, with no hypothesis left (GenLegal.v). Time clause: wall-clock measurement "
-            "(budget + 250 ms). Depth limits >= MAX_DEPTH: recorded known finding.", "DESIGN.md section 6 C14", "modulo fuel"),
+            "(budget + 250 ms). Depth limits >= MAX_DEPTH: recorded known finding. The search returns for every sufficient fuel with the same result (C14_search_always_reports_bounded_scores).", "DESIGN.md section 6 C14", ""),
     "C15": ("proof", "Coq proof for the command layer (only `position` with a rejected FEN can panic) + both binaries on generated scripts",
             "PARTIAL by nature. Proved: in the model of the command loop no line other than `position` with a FEN the parser rejects reaches a "
-            "panic. Arithmetic traps inside search/movegen, stack, memory, pipes and EOF cannot be carried by the model: covered by running the "
+            "panic; and the search of the model never gets stuck: root, negamax and qsearch return for every limit, window and history on positions satisfying the invariant with any table that has "
+            "at least one slot, with explicit recursion-depth bounds (the only way to a stuck search left in the model is a zero-length table). Arithmetic traps inside the Rust search/movegen, the real stack, memory, pipes and EOF cannot be carried by the model: covered by running the "
             "optimised and the checked binary on generated scripts (exit status, stderr, readyok/bestmove counts, transcript vs model).",
             "DESIGN.md section 6 C15", ""),
     "C16": ("proof", "Coq proof: states are identical after ucinewgame given equal options; position depends on the flag only; process-level differential",
